@@ -52,6 +52,13 @@ Proof.
     rewrite <- (step_edge inst (tdir d) e prev st et Es). destruct et; reflexivity.
 Qed.
 
+(* ... hence meets C03's premise [chain] literally *)
+Lemma fold_is_chain inst d es prev st r :
+  route_fold (trav_of inst d) prev st es = Ok r -> chain QN (step inst (tdir d)) prev st (map conv r).
+Proof.
+  intros H. exact (walk_chain QN (step inst (tdir d)) (step_edge inst (tdir d)) es prev st _ (fold_is_walk inst d es prev st r H)).
+Qed.
+
 Section Sums.
   Variable inst : instance Q.
   Variables (i_d i_t : nat) (fu_d : dist_unit) (fu_t : time_unit) (d0 t0 : Q).
